@@ -180,17 +180,28 @@ def check_managed_thread(chk, prog):
             op = ops[0]
             cfg = op.cfg
             stores = []
+            asserted = []
             user_calls = []
             for c in op.walk():
                 if c.get('k') not in CALL_KINDS:
                     continue
                 callee = c.get('callee', '')
-                if callee.endswith('::store') and callee.startswith('std::'):
+                if callee.startswith('std::') and 'atomic' in callee and (
+                        callee.endswith('::store') or callee.endswith('::exchange') or callee.endswith('::operator=')):
                     args = children(c)[1:]
                     v = strip_casts(args[0]) if args else None
                     val = v.get('val') if isinstance(v, dict) else None
                     if val is None and args and isinstance(args[0], dict):
                         val = args[0].get('cv')
+                    # a write that is the operand of assert() exists only in builds without NDEBUG: clang (run with
+                    # -UNDEBUG) shows it as the condition of `cond ? void( 0) : __assert_fail( ...)`
+                    in_assert = any(a.get('k') == 'ConditionalOperator' and any(
+                        y.get('k') in CALL_KINDS and (y.get('callee') or '').split('::')[-1] in (
+                            '__assert_fail', '__assert', '__assert_perror_fail', '_assert') for y in walk(a))
+                        for a in op.ancestors(c))
+                    if in_assert:
+                        asserted.append(c)
+                        continue
                     stores.append((bool(val), c))
                 elif callee in ('std::forward', 'std::move') or c.get('k') == 'CXXConstructExpr':
                     continue
@@ -202,6 +213,8 @@ def check_managed_thread(chk, prog):
             what = 'flag set before and cleared after the user function on every normal path'
             good = bool(sets) and bool(clears) and bool(user_calls)
             detail = 'sets=%d clears=%d user calls=%d' % (len(sets), len(clears), len(user_calls))
+            if asserted:
+                detail += '; %d write(s) of the flag are operands of assert() and vanish with -DNDEBUG' % len(asserted)
             if good:
                 for uc in user_calls:
                     if not any(cfg.node_dominates(s, uc) for s in sets):
